@@ -127,7 +127,7 @@ func main() {
 	replay := flag.String("replay", "", "replay file to run natively")
 	only := flag.String("job", "", "run only jobs whose name contains this")
 	workers := flag.Int("workers", 16, "")
-	solver := flag.String("solver", "z3", "solver backend")
+	solver := flag.String("solver", "", "solver backend (default: z3-new if on PATH, else z3)")
 	verbose := flag.Bool("v", false, "")
 	// the property id may come before or after the flags
 	prop := ""
@@ -165,6 +165,12 @@ func main() {
 	os.Setenv("GOFLAGS", "-mod=mod")
 	os.Setenv("GOPROXY", "off")
 
+	if *solver == "" {
+		*solver = "z3"
+		if _, err := exec.LookPath("z3-new"); err == nil {
+			*solver = "z3-new"
+		}
+	}
 	if *replay != "" {
 		os.Exit(runReplayCmd(prop, *replay))
 	}
